@@ -294,6 +294,12 @@ theorem rounding_ieee : Rounding fl64 := Proofs.IeeeRound.rounding_fl64
 theorem fl64_f64exact (q : ℚ) (h : |q| ≤ 2 ^ 1023) : F64Exact (fl64 q) ∧ fl64 (fl64 q) = fl64 q :=
   ⟨Proofs.IeeeRound.fl64_f64exact q h, Proofs.IeeeRound.fl64_idem q h⟩
 
+/-- … and it is a NEAREST one: no finite binary64 value `y` is closer to `q` than `fl64 q` (with `fl64_f64exact`
+    and the tie rule `Proofs.IeeeRound.fl64_tie_even` this characterises round-to-nearest-even: `fl64` need not be
+    trusted by inspection of its definition) -/
+theorem fl64_nearest (q y : ℚ) (hy : F64Exact y) : |fl64 q - q| ≤ |y - q| :=
+  Proofs.IeeeRound.fl64_nearest q y hy
+
 /-- l.253-256 `f64::from(x) / CPR_MAX`: a binary64 value for every 17-bit field -/
 theorem cpr_f64exact (n : ℕ) (hn : n < 131072) : F64Exact ((n : ℚ) / 131072) :=
   Proofs.CprFloat.cpr_f64exact n hn
